@@ -249,6 +249,10 @@ def run(ctx) -> list[Inst]:
             continue
         if isinstance(n, ast.Call) and isinstance(n.func, ast.Attribute) and (
                 n.func.attr == 'addErrorListener' or n.func.attr in installers):
+            # a listener on the LEXER hears token errors only: it is no handling of what the parser finds
+            if n.func.attr == 'addErrorListener' and isinstance(n.func.value, ast.Name) and lexer_var_early \
+                    and n.func.value.id == lexer_var_early and n.func.value.id != parser_var:
+                continue
             other_handling = True
         if isinstance(n, ast.Raise) and cfg.node_of(n) is not None and cfg.dominates(parse_node, cfg.node_of(n)):
             other_handling = True
